@@ -1931,9 +1931,11 @@ class RDD:
         >>> sum(Context().parallelize([4, 9, 7, 3, 2, 5], 3).toLocalIterator())
         30
         """
+        # the partitions are evaluated inside runJob(), i.e. while the job
+        # holds the context lock, and only then handed out as an iterator
         return self.context.runJob(
             self, lambda tc, i: list(i),
-            resultHandler=lambda l: (x for p in l for x in p),
+            resultHandler=lambda l: iter([x for p in l for x in p]),
         )
 
     def top(self, num, key=None):
